@@ -212,7 +212,7 @@ func (g *c01Gen) rawLit() *shape {
 		case 3:
 			b.WriteString(pick(r, []string{`\\`, `\n`, `\t`, `\x41`, `\u{41}`, `\$`, `\${`}))
 		case 4:
-			b.WriteString(pick(r, []string{"\n", "\n", "\r\n", "\n  ", "\n\t", "\n\n"}))
+			b.WriteString(pick(r, []string{"\n", "\n", "\r\n", "\n  ", "\n\t", "\n\n", "\n\n\n", "\n\n\n\n", "\n\t\n\n"}))
 		case 5:
 			if r.chance(1, 4) {
 				b.WriteString(pick(r, []string{" \n", "  \n", "x \n", "\n \n"})) // trailing blanks: known finding
